@@ -634,7 +634,7 @@ func (t *Tree) Compile(file string, args []string, out io.Writer) (err error) {
 			t.StructName = n.String()
 			t.StructVariables = n.Front().String()
 		case TypeRule:
-			if _, ok := t.Rules[n.String()]; !ok {
+			if rule, ok := t.Rules[n.String()]; !ok {
 				expression := n.Front()
 				cp := expression.Copy()
 				expression.Init()
@@ -644,6 +644,9 @@ func (t *Tree) Compile(file string, args []string, out io.Writer) (err error) {
 
 				t.Rules[n.String()] = n
 				t.RuleNames = append(t.RuleNames, n)
+			} else if rule != n {
+				/* a second definition cannot be generated (rules are numbered by definition): diagnose it instead of crashing later */
+				return fmt.Errorf("rule '%v' defined more than once", n)
 			}
 		}
 	}
